@@ -240,7 +240,25 @@ def search(ctx):
                 found.append({"clause": why, "input": {"class": "PooledClient(max_pool_size=%d, pool_idle_timeout=5)" % size, "cfg": repr(c), "ops": repr(ops),
                                                         "script": repr(sc), "clock": "warm call at 0, the rest at 100"},
                               "observed": repr(r[0]), "size": len(sc) + len(ch), "case": repr((c, ops, sc, ch, rbo, ("idle", size)))})
-    ctx.search_summary = {"runs_with_tagged_replies": n, "idle_expiry_runs": ni}
+    # two overlapping calls on one pool, one of them interrupted (C08's scheduler and pool accounting; operation 4 = a BaseException in
+    # the socket call): the interrupted call's slot comes back and the OTHER call's connection is left alone
+    from harness.props import C08 as c08
+    import random as _random
+    rng2 = _random.Random(ctx.seed * 97 + 10)
+    nt = 0
+    for sc in [(2, [[4], [0]]), (2, [[4, 0], [0]]), (2, [[0], [4]]), (2, [[4], [4], [0]])]:
+        for pooled in (False, True):
+            base = c08.run_pool(sc[0], sc[1], (), False, pooled)
+            for plan in c08.plans_for(base[3] + 2, 2, rng2, 60 if ctx.quick else 600):
+                nt += 1
+                r = c08.run_pool(sc[0], sc[1], plan, False, pooled)
+                if r[2]:
+                    found.append({"clause": "two overlapping calls, one interrupted: " + r[2][0],
+                                  "input": {"class": "PooledClient" if pooled else "ObjectPool", "max_size": sc[0], "thread programs (4 = interrupted use)": repr(sc[1]),
+                                            "preempt_at_steps": list(plan)}, "observed": repr(r[1]), "size": 50 + len(plan),
+                                  "case": repr((sc, plan, pooled, "threads"))})
+                    break
+    ctx.search_summary = {"runs_with_tagged_replies": n, "idle_expiry_runs": ni, "two_thread_interruption_runs": nt}
     found.sort(key=lambda v: v["size"])
     return found[:1]
 
@@ -256,7 +274,13 @@ def replay(ctx, obj):
     v = obj.get("violation")
     if not v or not v.get("case"):
         return None
-    c, ops, sc, ch, rbo, ps = eval(v["case"])
+    case = eval(v["case"])
+    if len(case) == 4 and case[3] == "threads":
+        from harness.props import C08 as c08
+        r = c08.run_pool(case[0][0], case[0][1], case[1], False, case[2])
+        print(r[0], r[1], r[2])
+        return bool(r[2])
+    c, ops, sc, ch, rbo, ps = case
     if isinstance(ps, tuple):
         r = cs.run_pooled(c, (ps[1], 5), ops, sc, ch, (), IDLE_CLOCK, rbo)
         print("results", r[0], "foreign", r[5].foreign)
